@@ -10,7 +10,9 @@ def reg(pid, engine, technique, text, note, design_ref):
 
 TRUST = ("Trusted: the reference model's constants typed in from the specification (validated on "
          "every run against the pinned official-calculator vectors), CPython, and that the tree "
-         "under test is what `import cvss` loads from $VERIF_REPO.")
+         "under test is what `import cvss` loads from $VERIF_REPO. Every task runs in a fresh fork of "
+         "a parent that never executed library code; a case that does not reproduce from its input "
+         "alone is replayed as its task prefix (history-dependent defects).")
 
 reg("C03", "E1 product sweep",
     "explicit-state enumeration of the complete v2 effective-assignment product on the real "
@@ -219,20 +221,25 @@ reg("C20", "E5 configuration matrix",
     "Trusted: the reference interpreter's results are decided by C01-C19; sha256.",
     "DESIGN.md section 3, C20")
 
-reg("C19", "E3 histories + E4 thread schedules + E5 configuration matrix",
+reg("C19", "E3 histories + E4 thread schedules (warm, cold, shared-object) + E5 configuration matrix",
     "four exhaustive bounded explorations on the real code: all API-call histories up to depth k "
     "followed by a probe (fresh-process differential + constant-table/ambient snapshots); all "
     "interleavings of real threads with <=2 preemptions under a settrace baton scheduler; the probe "
     "program under a list of hash seeds; the score spaces under a matrix of ambient decimal contexts",
-    "(1) 28 process-level operations (valid / malformed / mandatory-missing constructions of every "
-    "version, same body under 3.0 and 3.1, RH parsing, text extraction, accessors on long-lived "
-    "objects, interactive builder, main()): all 812 histories of length <=2 (quick) / 22,764 of "
-    "length <=3 (thorough), each in a fork of a pristine parent. (2) ten thread groups; bound 0/1 at "
-    "line granularity (every traced line of the package is a switch point), bound 2 at call "
-    "granularity (quick) / line granularity for two v3 groups (thorough), opcode granularity at "
-    "bound 1 (thorough); 58k-1.5M complete schedules. (3) 8 hash seeds x ~15k cases, lists compared "
-    "as lists. (4) 11 (quick) / 40 (thorough) decimal contexts x 165k vectors incl. the complete v3 "
-    "impact space, plus 4 contexts set before import.",
+    "(1) 30 process-level operations (valid / malformed / mandatory-missing constructions of every "
+    "version, same body under 3.0 and 3.1, band-edge vectors, RH parsing, text extraction, accessors "
+    "on long-lived objects, interactive builder, main(), the probe itself): all 930 histories of "
+    "length <=2 (quick) / 27,930 of length <=3 (thorough), each in its own fresh fork of a pristine "
+    "parent under a non-default ambient decimal context, followed by a 340-case probe and "
+    "constant-table / ambient snapshots. (2) ten warm thread groups: bound 0/1 at line granularity "
+    "(every traced line of the package is a switch point), bound 2 at call granularity (quick) / "
+    "line granularity for two v3 groups (thorough), opcode granularity at bound 1 (thorough). (2b) "
+    "twelve groups whose every schedule runs in a fresh fork (cold lazily-built globals) incl. six "
+    "where two threads use ONE fresh object (bound 1 and 2 at line granularity). 80k (quick) - 1.5M "
+    "(thorough) complete schedules. (3) 8 hash seeds x ~17k cases, lists compared as lists. (4) 11 "
+    "(quick) / 40 (thorough) decimal contexts x 165k vectors incl. the complete v3 impact space and "
+    "every error path, plus 4 contexts set before import. (5) every non-CLI entry point over ~100k "
+    "strings with stdout/stderr captured.",
     "Trusted: sys.settrace line events as scheduling points (no locks/atomics in the library, so "
     "there is no synchronisation-free blind spot at that granularity); the pinned list of constant "
     "tables; decimal signal flags are not counted as 'the decimal context'.",
